@@ -64,7 +64,7 @@ class CB:
             evs = sorted((k, tok(v)) for k, v in kw.items())
         else:
             evs = [dict(name=e.name, what=e.what, old=tok(e.old), new=tok(e.new), type=e.type) for e in events]
-        target = w.o if self.spec['target'] == 'inst' else w.cls
+        target = {'inst': w.o, 'cls': w.cls, 'sub': w.sub}[self.spec['target']]
         seen = {n: tok(getattr(target, n)) for n in ('a', 'b', 'n')}
         w.ncalls += 1
         w.log.append(('call', {'w': self.spec['id'], 'events': evs, 'seen': seen, 'k': w.ncalls}))
@@ -92,6 +92,13 @@ class World:
         if event:
             ns['e'] = param.Event()
         self.cls = type('D', (param.Parameterized,), ns)
+        self.sub = None
+        if any(s.get('target') == 'sub' for s in specs):
+            # a subclass that gets its own copies of a and b *before* any watcher is registered: from then on its watchers and the
+            # base class's are registered on different Parameter objects
+            self.sub = type('DS', (self.cls,), {})
+            self.sub.a = self.vals[0]
+            self.sub.b = self.vals[0]
         self.o = self.cls()
         self.log = []
         self.ncalls = 0
@@ -105,6 +112,8 @@ class World:
         if event:
             mvals['e'] = False
         self.model = DispatchModel(mvals, {('n', 'bounds'): self.vals[B0]}, event_names=('e',) if event else (), tok=self.tok)
+        if self.sub is not None:
+            self.model.subvals = {'a': self.vals[0], 'b': self.vals[0]}
         for s in self.specs:
             s.setdefault('what', 'value'); s.setdefault('target', 'inst'); s.setdefault('mode', 'args')
             s.setdefault('queued', False); s.setdefault('precedence', 0); s.setdefault('onlychanged', True)
@@ -124,7 +133,7 @@ class World:
         return ['~', repr(o)]
 
     def register(self, s):
-        ns = (self.o if s['target'] == 'inst' else self.cls).param
+        ns = {'inst': self.o, 'cls': self.cls, 'sub': self.sub}[s['target']].param
         cb = CB(self, s)
         if s['mode'] == 'kwargs':
             h = ns.watch_values(cb, list(s['names']), what=s['what'], onlychanged=s['onlychanged'], queued=s['queued'],
@@ -143,6 +152,8 @@ class World:
             setattr(o, op[1], V_[op[2]])
         elif k == 'cset':
             setattr(self.cls, op[1], V_[op[2]])
+        elif k == 'sset':
+            setattr(self.sub, op[1], V_[op[2]])
         elif k == 'slot':
             target = o if op[4:] != ['cls'] else self.cls
             setattr(target.param[op[1]], op[2], V_[op[3]])
@@ -178,6 +189,13 @@ class World:
             m.op_set(op[1], V_[op[2]])
         elif k == 'cset':
             m.op_set(op[1], V_[op[2]], target='cls')
+        elif k == 'sset':
+            # the subclass's own values: only watchers registered on the subclass are concerned
+            m.vals, m.subvals = m.subvals, m.vals
+            try:
+                m.op_set(op[1], V_[op[2]], target='sub')
+            finally:
+                m.vals, m.subvals = m.subvals, m.vals
         elif k == 'slot':
             m.assign_slot(op[1], op[2], V_[op[3]], target='inst' if op[4:] != ['cls'] else 'cls')
         elif k == 'update':
@@ -223,6 +241,10 @@ class World:
                 got = getattr(self.o if self.readback == 'inst' else self.cls, n)
                 if got is not v and not (got == v and type(got) is type(v)):
                     vs.append(V('read-back', 'after %r: %s is %r, specification says %r' % (op, n, got, v), op=op[0], name=n))
+            for n, v in (m.subvals or {}).items():
+                got = getattr(self.sub, n)
+                if got is not v and not (got == v and type(got) is type(v)):
+                    vs.append(V('read-back', 'after %r: subclass value %s is %r, specification says %r' % (op, n, got, v), op=op[0], name='sub.' + n))
         return vs
 
     def close_all(self):
